@@ -7,6 +7,8 @@ Deductive part:
      _data_summary, _context_summary, _init_summaries, _augment_output_summaries, _ensure_context_delta, _trace_options,
      _extract_context_delta_lists, _context_snapshot, _required_keys_for(normalize part: _normalize_keys), with the user hooks they
      call (serialize, sha256, repr, canonical JSON) abstract and allowed to raise any Exception.
+(c) JsonlTraceDriver.__init__: the options mapping is the driver's own (created by the call; module-level state untouched) and is the
+     documented function of the detail string (eight representative strings, evaluated exactly).
 Bounded stand-in (labelled bounded): traced vs untraced native runs, and repeated runs compared after removing the documented
  volatile fields (replay/c10_bounded.py).
 """
@@ -169,8 +171,64 @@ def t_helpers(spec):
     spec.assumptions |= s2.assumptions
 
 
+JSONL = "semantiva/trace/drivers/jsonl.py"
+
+
+class DriverSpec(PureLibMixin, BaseSpec):
+    def __init__(self):
+        super().__init__(PROP)
+        self.inline_files |= {JSONL}
+
+    def ext_call(self, I, dotted, args, kwargs, star):
+        if dotted == "pathlib.Path":
+            return V.obj(fresh("path", core.I))
+        return super().ext_call(I, dotted, args, kwargs, star)
+
+
+def h_driver_init(spec):
+    """JsonlTraceDriver.__init__: the detail options of a driver are its own (a mapping created by this call, nothing at module
+    level is read-modified), and they are the documented function of the detail string - whatever was constructed before"""
+    s2 = DriverSpec()
+    s2.obligations, s2._seen, s2.undecided, s2.functions, s2.used_contracts = spec.obligations, spec._seen, spec.undecided, spec.functions, spec.used_contracts
+    fn_info(s2, JSONL, "JsonlTraceDriver.__init__")
+    table = [(None, (True, False, False)), ("hash", (True, False, False)), ("repr", (False, True, False)), ("repr,context", (False, True, True)),
+             ("all", (True, True, True)), (" Repr , bogus", (False, True, False)), ("bogus", (True, False, False)), ("context, hash", (True, False, True))]
+
+    def body(I):
+        st = I.st
+        mod = source.load_module(JSONL)
+        for name in list(mod.assigns):
+            try:
+                I.resolve_global(mod, name)          # module-level objects exist before the call
+            except Exception:      # noqa
+                pass
+        n0 = st.nalloc
+        h0 = st.h.copy()
+        ci = cls_of(I, JSONL, "JsonlTraceDriver")
+        me = st.new_inst(ci)
+        n1 = st.nalloc
+        k = st.choose(len(table), "detail string")
+        detail, want = table[k]
+        _, f = E.method_of(I, JSONL, "JsonlTraceDriver", "__init__")
+        out = E.execute(I, f, [me, vstr("out.jsonl"), NONE if detail is None else vstr(detail)])
+        tag = repr(detail)
+        if out[0] != "return":
+            s2.oblige(I, f"driver.__init__[{tag}]/never-raises", z3.BoolVal(False), meta={"exc": repr(out[1])})
+            return
+        h = st.h
+        opts = fld(h, me, "_opts")
+        s2.oblige(I, f"driver.__init__[{tag}]/options-mapping-is-created-by-this-call(not-shared)", z3.And(V.is_ref(opts), V.id(opts) > n1),
+                  meta={"witness": "shared-options"})
+        s2.oblige(I, f"driver.__init__[{tag}]/module-level-state-untouched", frame_eq(h0, h, n0), meta={"witness": "shared-options"})
+        for key, w in zip(("hash", "repr", "context"), want):
+            s2.oblige(I, f"driver.__init__[{tag}]/flag-{key}-is-the-documented-value", z3.And(z3.Select(ddom(h, opts), vstr(key)), z3.Select(dval(h, opts), vstr(key)) == vbool(w)))
+    E.run_function(s2, "JsonlTraceDriver.__init__", body)
+    spec.path_count += s2.path_count
+    spec.assumptions |= s2.assumptions
+
+
 t_helpers.shards = 16
-TASKS = [C06.h_execute_traced, C06.h_execute_untraced, t_helpers]
+TASKS = [h_driver_init, C06.h_execute_traced, C06.h_execute_untraced, t_helpers]
 
 
 def factory():
